@@ -167,4 +167,63 @@ pub fn solve_pool_for_first_output(reg: &dyn Registry, readings: &[u64], rounds:
 }
 
 /// Output values a value-keyed shortcut would single out.
-pub const SPECIAL_WORDS: [u64; 8] = [0, u64::MAX, 0x0000_0000_9E37_79B9, 0xDEAD_BEEF_0000_0000, 0x0000_0000_FFFF_FFFF, 0xFFFF_FFFF_0000_0000, 1, 0x8000_0000_0000_0000];
+pub const SPECIAL_WORDS: [u64; 10] = [0, u64::MAX, 0x0000_0000_9E37_79B9, 0xDEAD_BEEF_0000_0000, 0x0000_0000_FFFF_FFFF, 0xFFFF_FFFF_0000_0000, 1, 0x8000_0000_0000_0000, 0x1357_9BDF_1357_9BDF, 0x0000_0001_0000_0001];
+
+/// Relations between the halves of the first two collected words that a "continuous test" or a
+/// cache keyed on the last word would single out. Each is a list of bit equalities between output
+/// bits (bit index = 64 * word + bit).
+pub fn two_word_relations() -> Vec<(&'static str, Vec<(usize, usize)>)> {
+    let eq32 = |a: usize, b: usize| -> Vec<(usize, usize)> { (0..32).map(|i| (a + i, b + i)).collect() };
+    vec![
+        ("w2.lo == w1.lo", eq32(64, 0)),
+        ("w2.lo == w1.hi", eq32(64, 32)),
+        ("w2.hi == w1.hi", eq32(96, 32)),
+        ("w2.hi == w1.lo", eq32(96, 0)),
+        ("w2 == w1", (0..64).map(|i| (64 + i, i)).collect()),
+        ("w1.hi == w1.lo and w2.lo == w1.lo", {
+            let mut v = eq32(32, 0);
+            v.extend(eq32(64, 0));
+            v
+        }),
+    ]
+}
+
+/// A pool (written through the hook before the first call) for which the first two `next_u64`
+/// results on these readings satisfy all the given bit equalities. The map pool -> (w1, w2) is
+/// GF(2)-affine; it is extracted on the basis pools and the linear system is solved.
+pub fn solve_pool_for_relation(reg: &dyn Registry, readings: &[u64], rounds: u8, eqs: &[(usize, usize)]) -> Option<u64> {
+    use refmodels::gf2::{BitVec, Mat};
+    let f = |p: u64| -> [u64; 2] {
+        let (mut g, _) = jitter_with(reg, readings.to_vec(), Some(rounds));
+        g.jitter().unwrap().set_pool(p);
+        [g.next_u64(), g.next_u64()]
+    };
+    let bit = |w: &[u64; 2], i: usize| (w[i / 64] >> (i % 64)) & 1;
+    let c = f(0);
+    let cols: Vec<[u64; 2]> = (0..64)
+        .map(|i| {
+            let y = f(1u64 << i);
+            [y[0] ^ c[0], y[1] ^ c[1]]
+        })
+        .collect();
+    // system A x = r, one row per equality: (row_a ^ row_b) . x = c_a ^ c_b
+    let k = eqs.len();
+    let mut a = Mat::zero(k, 64);
+    let mut r = BitVec::zero(k);
+    for (row, &(ba, bb)) in eqs.iter().enumerate() {
+        for j in 0..64 {
+            if bit(&cols[j], ba) ^ bit(&cols[j], bb) == 1 {
+                a.col[j].set(row, true);
+            }
+        }
+        r.set(row, bit(&c, ba) ^ bit(&c, bb) == 1);
+    }
+    let x = a.solve(&r)?.w[0];
+    let y = f(x);
+    if eqs.iter().all(|&(ba, bb)| bit(&y, ba) == bit(&y, bb)) {
+        Some(x)
+    } else {
+        None
+    }
+}
+
